@@ -19,6 +19,7 @@ import (
 	"strconv"
 	"strings"
 	"sync"
+	"time"
 
 	"rivaas.dev/middleware/basicauth"
 	"rivaas.dev/middleware/bodylimit"
@@ -36,14 +37,16 @@ type B = []byte
 // `replay` can re-run exactly the same configuration and request.
 type caseT struct {
 	Kind string
-	Body *bodyCase   `json:",omitempty"`
-	Auth *authCase   `json:",omitempty"`
-	Cors *corsCase   `json:",omitempty"`
-	Seq  *corsSeq    `json:",omitempty"`
-	BSeq *bodySeq    `json:",omitempty"`
-	Meth *methodCase `json:",omitempty"`
-	Sl   *slashCase  `json:",omitempty"`
-	Err  *errCase    `json:",omitempty"`
+	Body *bodyCase    `json:",omitempty"`
+	Auth *authCase    `json:",omitempty"`
+	Cors *corsCase    `json:",omitempty"`
+	Seq  *corsSeq     `json:",omitempty"`
+	BSeq *bodySeq     `json:",omitempty"`
+	Meth *methodCase  `json:",omitempty"`
+	Sl   *slashCase   `json:",omitempty"`
+	Err  *errCase     `json:",omitempty"`
+	MPar *methodPar   `json:",omitempty"`
+	AOv  *authOverlap `json:",omitempty"`
 }
 
 // errCase: the default rejection of bodylimit (Which = "B": a declared size over Limit) or of basicauth (Which = "A":
@@ -453,7 +456,7 @@ func (c *bodyCase) emit(id string, st *hx.Stats) string {
 			r = router.MustNew()
 			if c.Outer > 0 {
 				r.Use(bodylimit.New(bodylimit.WithLimit(c.Outer))) // router-wide, generous or tight
-				chain = append(chain, bodylimit.New(opts...))       // route-level
+				chain = append(chain, bodylimit.New(opts...))      // route-level
 			} else {
 				r.Use(bodylimit.New(opts...))
 			}
@@ -1519,7 +1522,9 @@ func genMethod(r *hx.Rand) *methodCase {
 				name = string(o.S)
 			}
 		}
-		v := func() string { return hx.Pick(r, []string{"PUT", "put", "DELETE", "delete", "PATCH", "Patch", "TRACE", "GET", "POST"}) }
+		v := func() string {
+			return hx.Pick(r, []string{"PUT", "put", "DELETE", "delete", "PATCH", "Patch", "TRACE", "GET", "POST"})
+		}
 		pre := hx.Pick(r, []string{"payment", "http", "x", "old", "form", "_", "%5F", "a.b", "return"})
 		var parts []string
 		for i, n := 0, r.Range(1, 3); i < n; i++ {
@@ -1705,6 +1710,186 @@ func (c *methodCase) emit(id string, st *hx.Stats) string {
 		}
 	}
 	return l.String() + hx.Comment(caseT{Kind: "M", Meth: c})
+}
+
+// methodPar (kind P): G goroutines send their requests at the same time through ONE methodoverride.New instance (and one
+// router); every request is an ordinary M case line judged on its own — the middleware is specified per request, so what
+// one request is rewritten to must not depend on the others. Lines that are identical (same input, same observation)
+// are printed once.
+type methodPar struct {
+	Opts []methOpt
+	Reqs []parReq
+	G, K int
+}
+
+type parReq struct {
+	Method string
+	Hdr    B `json:",omitempty"`
+	Query  B `json:",omitempty"`
+}
+
+func genMethodPar(r *hx.Rand) *methodPar {
+	q := &methodPar{G: r.Range(6, 12), K: r.Range(40, 120)}
+	if r.Chance(1, 3) {
+		q.Opts = []methOpt{{K: "A", L: []B{B("PUT"), B("DELETE")}}}
+	}
+	pool := []parReq{{Method: "POST", Hdr: B("DELETE")}, {Method: "POST", Hdr: B("TRACE")}, {Method: "GET", Hdr: B("DELETE")},
+		{Method: "POST", Hdr: B("PUT")}, {Method: "POST"}, {Method: "PUT", Hdr: B("PATCH")}, {Method: "POST", Query: B("_method=PATCH")},
+		{Method: "DELETE"}, {Method: "POST", Hdr: B("CONNECT")}, {Method: "HEAD", Hdr: B("PUT")}}
+	for _, i := range []int{0, 1, 2} {
+		q.Reqs = append(q.Reqs, pool[i])
+	}
+	for range r.Range(1, 4) {
+		q.Reqs = append(q.Reqs, hx.Pick(r, pool))
+	}
+	return q
+}
+
+func (q *methodPar) emit(id string, st *hx.Stats) string {
+	type obsT struct {
+		ran        bool
+		seen, orig string
+	}
+	mkReq := func(p parReq) *http.Request {
+		req := httptest.NewRequest(http.MethodGet, "/m", nil)
+		req.Method = p.Method
+		req.URL.RawQuery = string(p.Query)
+		req.ContentLength = 5
+		if p.Hdr != nil {
+			req.Header.Set("X-HTTP-Method-Override", string(p.Hdr))
+		}
+		return req
+	}
+	_, opts := methLine(id, q.Opts, "POST", "", mkReq(parReq{Method: "POST"}))
+	r := router.MustNew()
+	r.Use(methodoverride.New(opts...))
+	type key struct{}
+	h := func(ctx *router.Context) {
+		o := ctx.Request.Context().Value(key{}).(*obsT)
+		o.ran, o.seen, o.orig = true, ctx.Request.Method, methodoverride.OriginalMethod(ctx)
+	}
+	for _, reg := range []func(string, ...router.HandlerFunc) any{
+		func(p string, hs ...router.HandlerFunc) any { return r.GET(p, hs...) }, func(p string, hs ...router.HandlerFunc) any { return r.POST(p, hs...) },
+		func(p string, hs ...router.HandlerFunc) any { return r.PUT(p, hs...) }, func(p string, hs ...router.HandlerFunc) any { return r.PATCH(p, hs...) },
+		func(p string, hs ...router.HandlerFunc) any { return r.DELETE(p, hs...) }, func(p string, hs ...router.HandlerFunc) any { return r.HEAD(p, hs...) },
+		func(p string, hs ...router.HandlerFunc) any { return r.OPTIONS(p, hs...) }} {
+		reg("/m", h)
+	}
+	results := make([][]obsT, q.G)
+	var wg sync.WaitGroup
+	start := make(chan struct{})
+	for g := 0; g < q.G; g++ {
+		results[g] = make([]obsT, q.K)
+		wg.Add(1)
+		go func(g int) {
+			defer wg.Done()
+			<-start
+			for j := 0; j < q.K; j++ {
+				p := q.Reqs[(g+j)%len(q.Reqs)]
+				req := mkReq(p)
+				o := &results[g][j]
+				req = req.WithContext(context.WithValue(req.Context(), key{}, o))
+				guard(func() { r.ServeHTTP(httptest.NewRecorder(), req) })
+			}
+		}(g)
+	}
+	close(start)
+	wg.Wait()
+	seenLine := map[string]bool{}
+	var lines []string
+	n := 0
+	for g := 0; g < q.G; g++ {
+		for j := 0; j < q.K; j++ {
+			p := q.Reqs[(g+j)%len(q.Reqs)]
+			o := results[g][j]
+			l, _ := methLine("", q.Opts, p.Method, "", mkReq(p))
+			body := l.Sep().Bool(o.ran).Str(o.seen).Str(o.orig).String()
+			if seenLine[body] {
+				continue
+			}
+			seenLine[body] = true
+			lines = append(lines, fmt.Sprintf("%s.p%d", id, n)+body+hx.Comment(caseT{Kind: "P", MPar: q}))
+			n++
+		}
+	}
+	if st != nil {
+		b, _ := json.Marshal(q)
+		st.Case(string(b), true)
+		st.Count("M.parallel_groups")
+	}
+	return strings.Join(lines, "\n")
+}
+
+// authOverlap (kind V): basicauth.New with a validator on ONE instance; the genuine request of a user is inside the
+// validator (it blocks there) while a request of the same user with a wrong password arrives; both are ordinary A case
+// lines judged on their own.
+type authOverlap struct {
+	User, Pass, Wrong string
+}
+
+func (q *authOverlap) emit(id string, st *hx.Stats) string {
+	entered := make(chan struct{}, 4)
+	release := make(chan struct{})
+	validator := func(u, p string) bool {
+		if u == q.User && p == q.Pass {
+			entered <- struct{}{}
+			<-release
+			return true
+		}
+		return false
+	}
+	r := router.MustNew()
+	r.Use(basicauth.New(basicauth.WithValidator(validator), basicauth.WithRealm("Restricted")))
+	type obsT struct {
+		ran  bool
+		user string
+	}
+	type key struct{}
+	r.GET("/p", func(ctx *router.Context) {
+		o := ctx.Request.Context().Value(key{}).(*obsT)
+		o.ran, o.user = true, basicauth.Username(ctx)
+	})
+	run := func(pass string) (obsT, *httptest.ResponseRecorder) {
+		var o obsT
+		rec := httptest.NewRecorder()
+		req := httptest.NewRequest(http.MethodGet, "/p", nil)
+		req.Header.Set("Authorization", "Basic "+b64(q.User+":"+pass))
+		req = req.WithContext(context.WithValue(req.Context(), key{}, &o))
+		guard(func() { r.ServeHTTP(rec, req) })
+		return o, rec
+	}
+	type resT struct {
+		o   obsT
+		rec *httptest.ResponseRecorder
+	}
+	good := make(chan resT, 1)
+	bad := make(chan resT, 1)
+	go func() { o, rec := run(q.Pass); good <- resT{o, rec} }()
+	<-entered
+	go func() { o, rec := run(q.Wrong); bad <- resT{o, rec} }()
+	var b resT
+	select {
+	case b = <-bad: // answered while the genuine request is still being validated
+		close(release)
+	case <-time.After(50 * time.Millisecond): // it waits for the other request's verdict: let that one finish
+		close(release)
+		b = <-bad
+	}
+	g := <-good
+	line := func(sfx, pass string, verdict bool, x resT) string {
+		l := hx.NewLine(id + sfx).Tok("A").Bool(false).Nat(0).Str("Restricted")
+		auth := "Basic " + b64(q.User+":"+pass)
+		l.Str(auth).Bool(true).Str(q.User + ":" + pass).Bool(true).Bool(verdict)
+		l.Sep().Bool(x.o.ran).Nat(x.rec.Code)
+		optStr(l, sent(x.rec).Values("WWW-Authenticate"))
+		l.Str(x.o.user)
+		return l.String() + hx.Comment(caseT{Kind: "V", AOv: q})
+	}
+	if st != nil {
+		st.Case(fmt.Sprint(*q), true)
+		st.Count("A.overlap_same_user_validator")
+	}
+	return line(".v0", q.Pass, true, g) + "\n" + line(".v1", q.Wrong, false, b)
 }
 
 // emitStacked: two method-override instances mounted one after the other (c.Opts, then c.Stack) with a probe
@@ -1968,11 +2153,21 @@ func emitCase(id string, k caseT, st *hx.Stats) string {
 		return k.Sl.emit(id, st)
 	case "E":
 		return k.Err.emit(id, st)
+	case "P":
+		if i := strings.LastIndex(id, ".p"); i > 0 {
+			id = id[:i]
+		}
+		return k.MPar.emit(id, st)
+	case "V":
+		if i := strings.LastIndex(id, ".v"); i > 0 {
+			id = id[:i]
+		}
+		return k.AOv.emit(id, st)
 	}
 	return ""
 }
 
-func bp(s string) *B { b := B(s); return &b }
+func bp(s string) *B      { b := B(s); return &b }
 func sp(s string) *string { return &s }
 
 // fixed witnesses: the K-findings of DESIGN.md §7 for C17 and boundary cases, emitted before the random cases
@@ -2076,7 +2271,11 @@ func main() {
 					k = caseT{Kind: "B", Body: genBody(r)}
 				}
 			case 1:
-				k = caseT{Kind: "A", Auth: genAuth(r)}
+				if i%500 == 1 {
+					k = caseT{Kind: "V", AOv: &authOverlap{User: hx.Pick(r, []string{"admin", "alice", "u"}), Pass: "secret", Wrong: hx.Pick(r, []string{"wrong", "", "secret ", "Secret"})}}
+				} else {
+					k = caseT{Kind: "A", Auth: genAuth(r)}
+				}
 			case 2:
 				if r.Chance(1, 12) {
 					k = caseT{Kind: "Q", Seq: genCorsSeq(r)}
@@ -2084,7 +2283,11 @@ func main() {
 					k = caseT{Kind: "C", Cors: genCors(r)}
 				}
 			case 3:
-				k = caseT{Kind: "M", Meth: genMethod(r)}
+				if i%600 == 3 {
+					k = caseT{Kind: "P", MPar: genMethodPar(r)}
+				} else {
+					k = caseT{Kind: "M", Meth: genMethod(r)}
+				}
 			default:
 				k = caseT{Kind: "T", Sl: genSlash(r)}
 			}
